@@ -660,7 +660,7 @@ static void measure(void)
     uint8_t none[1] = { 0 };
     base[0] = 0;
     for (s = 0; s < NSCRIPT; s++) {
-        const uint64_t r = vrt_thorough ? 40000 : 1500;
+        const uint64_t r = vrt_thorough ? 60000 : 6000;
         vrt_fp_arm(none, 0, 0);
         scripts[s].body();
         Nalloc[s] = vrt_fp_ordinal();
